@@ -45,12 +45,15 @@ Line2 == << <<0, 0>>, <<100, 0>> >>
 Line3 == << <<0, 0>>, <<100, 0>>, <<100, 80>> >>
 Line5 == << <<-10, -10>>, <<50, -10>>, <<50, 40>>, <<90, 40>>, <<90, 0>> >>
 
+\* (the last one: layer / type words with the sign bit set, as gdstk writes for tags >= 32768; every
+\*  reader has to extend them the same way)
 Boundaries == {Bnd(1, 0, Tri, P0), Bnd(2, 5, RectN, P1), Bnd(32767, 32767, Hexa, P2),
-               Bnd(0, 0, Big, P3)}
+               Bnd(0, 0, Big, P3), Bnd(-25536, -1, Tri, P1)}
 Boxes == {BoxE(3, 1, RectN, P0), BoxE(4, 0, << <<0, 0>>, <<0, 9>>, <<9, 9>>, <<9, 0>>, <<0, 0>> >>, P1)}
 Paths == {PathE(1, 0, 0, 10, 0, 0, Line2, P0), PathE(5, 2, 1, 0, 0, 0, Line3, P0),
           PathE(6, 1, 2, -20, 0, 0, Line5, P1), PathE(7, 0, 4, 6, 5, -3, Line3, P2),
-          PathE(8, 3, 0, 0, 0, 0, Line2, P0), PathE(9, 0, 4, 8, 0, 0, Line5, P0)}
+          PathE(8, 3, 0, 0, 0, 0, Line2, P0), PathE(9, 0, 4, 8, 0, 0, Line5, P0),
+          PathE(-1, -32768, 0, 4, 0, 0, Line2, P0)}
 Srefs == {Sref(S_CELL, FALSE, M1, A0, << <<10, 20>> >>, P0),
           Sref(S_MISSING, TRUE, M2, A90, << <<-5, 7>> >>, P1),
           Sref(S_CELL, FALSE, Mhalf, A30p5, << <<0, 0>> >>, P0),
@@ -64,7 +67,8 @@ Arefs == {Aref(S_CELL, FALSE, M1, A0, 2, 3, << <<0, 0>>, <<200, 0>>, <<0, 360>> 
 Texts == {TextE(10, 0, 0, 0, 0, FALSE, M1, A0, << <<1, 2>> >>, <<104, 105>>, P0),
           TextE(11, 3, 5, 0, 0, FALSE, M1, A0, << <<-3, 4>> >>, <<111, 100, 100>>, P1),
           TextE(12, 1, 26, 1, 4, TRUE, M1p5, A270, << <<0, 0>> >>, <<84>>, P0),
-          TextE(13, 0, 10, 0, 0, FALSE, Mquarter, A45, << <<7, 7>> >>, <<115, 101>>, P2)}
+          TextE(13, 0, 10, 0, 0, FALSE, Mquarter, A45, << <<7, 7>> >>, <<115, 101>>, P2),
+          TextE(-2, -3, 0, 0, 0, FALSE, M1, A0, << <<5, 5>> >>, <<110>>, P0)}
 Palette == Boundaries \cup Boxes \cup Paths \cup Srefs \cup Arefs \cup Texts
 
 Ch(ef, px, om, sp, h) == [elflags |-> ef, plex |-> px, omit |-> om, split |-> sp, hdr |-> h]
